@@ -84,6 +84,9 @@ func runC14(w *World) {
 	p := s.P
 	w.Net.CapsOracle = false
 	nconn := 1 + w.Draw(3, "nconn")
+	if w.Tier == "thorough" {
+		nconn = 1 + w.Draw(6, "nconn-thorough")
+	}
 	for k := 0; k < nconn; k++ {
 		c := s.E.OpenConn(p, dir, time.Minute)
 		if c == nil {
